@@ -191,42 +191,59 @@ def finish (fs : FS) (path : Str) (r : Out × PyM Unit) : FS × PyM Unit := (fs.
 
 def shortModes : List Str := [['t'], ['b'], ['t', '+'], ['b', '+']]
 
+/-- lines 61–64: the short modes get a `w`; a bytes payload forces `b` into the mode -/
+def normMode (mode : Str) (isBytes : Bool) : PyM Str :=
+  let mode1 := if shortModes.contains mode then 'w' :: mode else mode
+  if isBytes then setB mode1 else .ok mode1
+
+def Payload.isBytes : Payload → Bool
+  | .bytes _ => true
+  | _ => false
+
+/-- lines 66–69 -/
+def toBuf (tag : Str) : Payload → Buf
+  | .dict kvs => .s (join lf (kvs.map (fun kv => kv.1 ++ tag ++ kv.2)))
+  | .other r => .s r
+  | .str s => .s s
+  | .bytes b => .b b
+  | .lines xs => .ls xs
+
+/-- lines 73–78 and 83–97: the manual path (binary handle, `'\n'` replaced by hand, every piece
+encoded by its own `str.encode(encoding)` call) -/
+def saveBinary (c : Codec) (fs : FS) (path : Str) (buf1 : Buf) (mode2 eol : Str) : FS × PyM Unit :=
+  match setB mode2 with
+  | .error e => (fs, .error e)
+  | .ok mode3 =>
+    match (match buf1 with
+           | .s x => (c.encode (replace lf eol x)).map Buf.b
+           | other => some other) with
+    | none => (fs, .error .ValueError)
+    | some buf2 =>
+      match c.encode eol with
+      | none => (fs, .error .ValueError)
+      | some eolB =>
+        match parseMode mode3 >>= openOut fs path with
+        | .error e => (fs, .error e)
+        | .ok content =>
+          finish fs path (writeAll c (mode3.contains 'b') (.b eolB)
+            { content := content, binary := true, fresh := false, nl := [] } buf2)
+
+/-- lines 80–81 and 83–97: the text layer does the newline translation and the encoding -/
+def saveText (c : Codec) (fs : FS) (path : Str) (buf1 : Buf) (mode2 eol : Str) : FS × PyM Unit :=
+  match parseMode mode2 >>= openOut fs path with
+  | .error e => (fs, .error e)
+  | .ok content =>
+    finish fs path (writeAll c (mode2.contains 'b') (.s lf)
+      { content := content, binary := false, fresh := content.isEmpty, nl := eol } buf1)
+
 /-- `save_file(file_path, output_buffer, mode, encoding, EOL, equal_tag)`: the resulting file
 system and the outcome.  `EOL` is a `str`. -/
 def saveFile (c : Codec) (fs : FS) (path : Str) (buf : Payload) (mode eol tag : Str) : FS × PyM Unit :=
-  let mode1 := if shortModes.contains mode then 'w' :: mode else mode
-  match (match buf with | .bytes _ => setB mode1 | _ => .ok mode1) with
+  match normMode mode buf.isBytes with
   | .error e => (fs, .error e)
   | .ok mode2 =>
-  let buf1 : Buf := match buf with
-    | .dict kvs => .s (join lf (kvs.map (fun kv => kv.1 ++ tag ++ kv.2)))
-    | .other r => .s r
-    | .str s => .s s
-    | .bytes b => .b b
-    | .lines xs => .ls xs
-  if mode2.contains 'b' || !isStdEol eol then
-    match setB mode2 with
-    | .error e => (fs, .error e)
-    | .ok mode3 =>
-      match (match buf1 with
-             | .s x => (c.encode (replace lf eol x)).map Buf.b
-             | other => some other) with
-      | none => (fs, .error .ValueError)
-      | some buf2 =>
-        match c.encode eol with
-        | none => (fs, .error .ValueError)
-        | some eolB =>
-          match parseMode mode3 >>= openOut fs path with
-          | .error e => (fs, .error e)
-          | .ok content =>
-            finish fs path (writeAll c (mode3.contains 'b') (.b eolB)
-              { content := content, binary := true, fresh := false, nl := [] } buf2)
-  else
-    match parseMode mode2 >>= openOut fs path with
-    | .error e => (fs, .error e)
-    | .ok content =>
-      finish fs path (writeAll c (mode2.contains 'b') (.s lf)
-        { content := content, binary := false, fresh := content.isEmpty, nl := eol } buf1)
+    if mode2.contains 'b' || !isStdEol eol then saveBinary c fs path (toBuf tag buf) mode2 eol
+    else saveText c fs path (toBuf tag buf) mode2 eol
 
 /-! ### load_file, load_lines -/
 
